@@ -86,7 +86,7 @@ CHECKS["C01"] = {
     "runs": {"quick": 60_000, "thorough": 1_500_000},
     "chunk": {"quick": 500, "thorough": 2_000},
     "budget_s": {"quick": 80, "thorough": 900},
-    "run_timeout": {"quick": 15, "thorough": 120},
+    "run_timeout": {"quick": 40, "thorough": 120},
     "manifest": {
         "text": "Partial. Decided for every text a faulty storage stack can hand the parser: valid files (foreign tool and the library's own writer) "
                 "damaged by torn / lost / duplicated / misdirected writes, bit rot, interleaved writers, garbage inserts, plus a fault-free "
@@ -117,7 +117,7 @@ CHECKS["C03"] = {
     "runs": {"quick": 60_000, "thorough": 1_500_000},
     "chunk": {"quick": 500, "thorough": 2_000},
     "budget_s": {"quick": 80, "thorough": 900},
-    "run_timeout": {"quick": 15, "thorough": 120},
+    "run_timeout": {"quick": 40, "thorough": 120},
     "manifest": {
         "text": "Partial. Same storage-fault and size-swarm runs as C01, judged by a conservation oracle over (text handed to parse_string, blocks): "
                 "raws found left-to-right (greedy first occurrence is exact for this oracle), gaps whitespace-only, no overlap, nothing after the last raw; "
